@@ -37,7 +37,7 @@ PROPS = {
     "C16": {
         "parts": [
             {"engine": "billsim", "instrument": "internal/billstat=locks", "cfgs": ["", "nofault"], "share": 2, "chunk": 4000},
-            {"engine": "bpbsim", "instrument": BPB_INSTRUMENT, "cfgs": ["", "nofault"], "share": 1, "chunk": 300},
+            {"engine": "bpbsim", "instrument": BPB_INSTRUMENT, "cfgs": ["", "nofault"], "share": 1, "chunk": 300, "det_trace": False},
         ],
         "quick": {"seconds": 25, "chunk": 4000, "runs": 400000},
         "thorough": {"seconds": 600, "chunk": 20000},
@@ -92,7 +92,7 @@ PROPS = {
              "instrument": "internal/profiledb=locks;internal/profiledb/internal/filecachepb=calls:renameio\\.|os\\.WriteFile|os\\.Rename",
              "modreplace": {"github.com/google/renameio/v2@v2.0.0": ".=calls:^t\\.Write$|^t\\.Sync$|os\\.Rename|CloseAtomicallyReplace"},
              "cfgs": ["", "nocrash"], "share": 3, "chunk": 1500},
-            {"engine": "bpbsim", "instrument": BPB_INSTRUMENT, "cfgs": [""], "share": 1, "chunk": 300},
+            {"engine": "bpbsim", "instrument": BPB_INSTRUMENT, "cfgs": [""], "share": 1, "chunk": 300, "det_trace": False},
         ],
         "quick": {"seconds": 40, "chunk": 1500, "runs": 60000},
         "thorough": {"seconds": 900, "chunk": 5000},
